@@ -48,12 +48,14 @@ fn viol(oracle: &'static str, step: usize, detail: String) -> Outcome {
 // ---------------------------------------------------------------------------
 // generation
 
-pub fn gen_tower(prop: Prop, rng: &mut Rng, _thorough: bool) -> History {
+pub fn gen_tower(prop: Prop, rng: &mut Rng, thorough: bool) -> History {
     let max = match prop {
         Prop::C02 | Prop::C03 | Prop::C18 => 64,
-        _ => 33,
+        _ => if thorough { 64 } else { 33 },
     };
-    let surf = gen_surface(rng, max, false, prop == Prop::C03 || prop == Prop::C18);
+    let transparent_ok = prop == Prop::C03 || prop == Prop::C18;
+    let surf = if thorough && rng.chance(1, 12) { gen_surface_big(rng, transparent_ok) } else { gen_surface(rng, max, false, transparent_ok) };
+    let deeper = thorough && rng.chance(1, 3);
     let mut em = Emit::new(vec![surf]);
     let mut draw = DrawCfg::general();
     let mut buggify = 0;
@@ -172,6 +174,13 @@ pub fn gen_tower(prop: Prop, rng: &mut Rng, _thorough: bool) -> History {
             }
         }
     };
+    let mut cfg = cfg;
+    if deeper {
+        // thorough tier: longer histories and deeper stacks on a third of the runs
+        cfg.max_ops += 10;
+        cfg.max_clip += 1;
+        cfg.max_layer += 1;
+    }
     if prop == Prop::C05 {
         // most C05 histories start with a stack already in place: rect/path in either order
         let (w, h) = em.dims(0);
